@@ -3,6 +3,7 @@ package execute
 import (
 	"errors"
 	"fmt"
+	"math"
 	"slices"
 	"sort"
 	"time"
@@ -251,6 +252,10 @@ func filterOutExecutedMessages(
 					break
 				}
 				reports[i].ExecutedMessages = append(reports[i].ExecutedMessages, s)
+				if s == math.MaxUint64 {
+					// s++ would wrap around to 0: "s <= executed.End()" never becomes false for MaxUint64.
+					break
+				}
 			}
 		}
 	}
